@@ -156,3 +156,12 @@ Proof.
   unfold NondetQ.nd_sels. rewrite <- (app_nil_r r). constructor; [|constructor].
   cbn [NondetQ.nd_sel]. unfold kids_order. cbn. apply perm_swap.
 Qed.
+
+(* the enumeration the check compares the implementation's complete outcome sets with lists exactly the nodelists the relation of the theorems holds
+   of (Proofs/NdEnum.v: all_perms = the permutations, all_orders = the runs of the frontier relation, which are the valid orders as far as containers
+   go - C17_frontier_sound one way, C17_exhaustive_at the other) *)
+From JP Require Import Proofs.NdEnum.
+Theorem C17_enumeration_exact : forall cfg q v r, wf_json v = true ->
+  (In r (nd_results (reg cfg) (rx cfg) q v) <-> nd_permitted (reg cfg) (rx cfg) q v r).
+Proof. exact nd_results_spec. Qed.
+Print Assumptions C17_enumeration_exact.
